@@ -903,7 +903,7 @@ func (q *sess) probe() (got bool, cl, what string) {
 	}()
 	leak := func(when string) (string, string) {
 		// settle loop of a leak check: on correct code the count is 0 at the first look
-		deadline := time.Now().Add(2 * time.Second)
+		deadline := time.Now().Add(20 * time.Second)
 		for {
 			n := requestGoGoroutines()
 			if n == 0 {
